@@ -7,6 +7,7 @@ INVARIANTS
   InvShape
   InvDiscriminates
   InvIdioms
+  InvRejected
   InvEvalAgrees
 POSTCONDITION Emit
 CHECK_DEADLOCK FALSE
